@@ -50,6 +50,9 @@ type fakeChain struct {
 
 	c *conn
 
+	// beforeFinish runs in the rescan goroutine right before RescanFinished is sent (blocks arriving meanwhile)
+	beforeFinish func(c *conn)
+
 	filterCalls  int
 	filterFailAt int // the n-th FilterBlocks call fails (once); 0 = never
 	rescans      int
@@ -295,6 +298,8 @@ func (fc *fakeChain) Rescan(start *chainhash.Hash, addrs []btcutil.Address, outp
 	tip := fc.best[len(fc.best)-1]
 	fc.rescans++
 	c := fc.c
+	hook := fc.beforeFinish
+	fc.beforeFinish = nil
 	fc.mu.Unlock()
 
 	watchA := map[string]struct{}{}
@@ -340,6 +345,9 @@ func (fc *fakeChain) Rescan(start *chainhash.Hash, addrs []btcutil.Address, outp
 					return
 				}
 			}
+		}
+		if hook != nil {
+			hook(c)
 		}
 		h := tip.hash
 		c.send(&chain.RescanFinished{Hash: &h, Height: tip.height, Time: tip.hdr.Timestamp})
